@@ -34,6 +34,16 @@ func main() {
 		cmdVC(os.Args[2:])
 	case "check":
 		cmdCheck(os.Args[2:])
+	case "engine-selftest":
+		res, err := runEngineSelftest()
+		js, _ := json.MarshalIndent(res, "", " ")
+		fmt.Println(string(js))
+		if err != nil {
+			fmt.Println(err)
+			os.Exit(1)
+		}
+	case "engine-selftest-inner":
+		cmdEngineInner()
 	case "matrix":
 		cmdMatrix(os.Args[2:])
 	case "locals":
